@@ -4,6 +4,9 @@ import (
 	"bytes"
 	"context"
 	"fmt"
+	"github.com/attestantio/dirk/rules"
+	"github.com/attestantio/dirk/services/checker"
+	"github.com/attestantio/dirk/services/ruler"
 	"os"
 	"path/filepath"
 	"runtime"
@@ -522,6 +525,42 @@ func cmdConc(prop string, args []string) int {
 				break
 			}
 			stats["load.rounds"]++
+		}
+		// very large batches through the ruler itself (any size must complete and leave nothing locked)
+		sizes := []int{2, 255, 256, 257, 600, 1025}
+		if cf.tier == "thorough" {
+			sizes = append(sizes, 2048, 2049, 5000)
+		}
+		for _, n := range sizes {
+			epoch += 2
+			data := make([]*ruler.RulesData, n)
+			for i := range data {
+				data[i] = &ruler.RulesData{WalletName: "Big", AccountName: fmt.Sprintf("A%d", i), PubKey: rng.Bytes(48),
+					Data: &rules.SignBeaconAttestationData{Domain: mkDomain(domAttester, 0), Slot: epoch * 32, BeaconBlockRoot: fill32(1),
+						Source: &rules.Checkpoint{Epoch: epoch - 1, Root: fill32(0)}, Target: &rules.Checkpoint{Epoch: epoch, Root: fill32(1)}}}
+			}
+			done := make(chan []rules.Result, 1)
+			go func() {
+				done <- inst.RealRuler.RunRules(ctx, &checker.Credentials{Client: "client1", IP: "10.0.0.1"}, ruler.ActionSignBeaconAttestation, data)
+			}()
+			select {
+			case res := <-done:
+				ok := 0
+				for _, r := range res {
+					if r == rules.APPROVED {
+						ok++
+					}
+				}
+				if ok != n {
+					monFail = append(monFail, fmt.Sprintf("a batch of %d fresh, valid attestations through the ruler got %d approvals", n, ok))
+				}
+				stats[fmt.Sprintf("bigbatch.n=%d", n)] = ok
+			case <-time.After(30 * time.Second):
+				monFail = append(monFail, fmt.Sprintf("a batch of %d attestations through the ruler never completed (30 s)", n))
+			}
+			if len(monFail) > 0 {
+				break
+			}
 		}
 		// callers that give up - a cancelled or expired request context, before or while the locks
 		// are being taken - must leave nothing locked: an unrelated request afterwards completes
